@@ -34,7 +34,7 @@ pub proof fn lemma_turn_about_another(a: St, b: St, n: Note, u: Uri)
     match n {
         Note::Open(v, t) => { lemma_last_for_push(a.applied, (v, Some(t)), u); }
         Note::Change(v, t) => { lemma_last_for_push(a.applied, (v, Some(t)), u); }
-        Note::Close(v) => { lemma_last_for_push(a.applied, (v, None), u); }
+        Note::Close(v) => { if close_effect(a, v) matches Some(e) { lemma_last_for_push(a.applied, e, u); } }
         Note::Other => {}
     }
 }
@@ -65,15 +65,19 @@ pub proof fn lemma_last_notification_wins(states: Seq<St>, notes: Seq<Note>, u: 
         // a didClose of a document that is not on disk / belongs to no workspace: removed, the analysis does not know it any more
         (notes[j] is Close && close_removes(states[j], u)) ==> last_for(states.last().applied, u) == Some(None::<Seq<char>>)
             && !states.last().known.contains(u) /*@C27.sequence.document-closed-last-is-closed*/,
-        // a didClose of a workspace / library file on disk: it stays in the analysis with the text of the last notification before the close
-        (notes[j] is Close && !close_removes(states[j], u)) ==> last_for(states.last().applied, u) == last_for(states[j].applied, u) /*@C27.sequence.closed-workspace-file-keeps-last-text*/,
+        // a didClose of a document the analysis knows, a workspace / library file on disk: the analysis holds what the FILE holds (or nothing,
+        // when the file cannot be read) — never the editor's text
+        (notes[j] is Close && !close_removes(states[j], u) && states[j].known.contains(u)) ==> (sp_path(u) matches Some(p)
+            ==> last_for(states.last().applied, u) == Some(sp_disk_text(p))) /*@C27.sequence.closed-document-reflects-disk*/,
+        // a didClose of a document the analysis does not know (its file is on disk): nothing to forget, nothing changes
+        (notes[j] is Close && close_effect(states[j], u) is None) ==> last_for(states.last().applied, u) == last_for(states[j].applied, u),
 {
     assert(turn(states, notes, j));
     let (a, b) = (states[j], states[j + 1]);
     match notes[j] {
         Note::Open(v, t) => { lemma_last_for_push(a.applied, (v, Some(t)), u); }
         Note::Change(v, t) => { lemma_last_for_push(a.applied, (v, Some(t)), u); }
-        Note::Close(v) => { lemma_last_for_push(a.applied, (v, None), u); }
+        Note::Close(v) => { if close_effect(a, v) matches Some(e) { lemma_last_for_push(a.applied, e, u); } }
         Note::Other => {}
     }
     lemma_untouched_suffix(states, notes, u, j + 1);
@@ -137,4 +141,54 @@ pub proof fn lemma_chain_inhabited(s0: St, u: Uri, t: Seq<char>)
     assert(turn(states, notes, 0));
     assert(chain(states, notes));
     lemma_last_for_push(s0.applied, (u, Some(t)), u);
+}
+
+/// the log and the main loop's view agree: a document for which the analysis was last given a text is known
+pub open spec fn consistent(s: St) -> bool {
+    forall|u: Uri| (#[trigger] last_for(s.applied, u) matches Some(Some(_))) ==> s.known.contains(u)
+}
+pub proof fn lemma_turn_keeps_consistent(a: St, b: St, n: Note)
+    requires step(a, b, n), consistent(a),
+    ensures consistent(b),
+{
+    assert forall|u: Uri| (#[trigger] last_for(b.applied, u) matches Some(Some(_))) implies b.known.contains(u) by {
+        if about(n) != Some(u) {
+            lemma_turn_about_another(a, b, n, u);
+        } else {
+            match n {
+                Note::Open(v, t) => { lemma_last_for_push(a.applied, (v, Some(t)), u); }
+                Note::Change(v, t) => { lemma_last_for_push(a.applied, (v, Some(t)), u); }
+                Note::Close(v) => { if close_effect(a, v) matches Some(e) { lemma_last_for_push(a.applied, e, u); } }
+                Note::Other => {}
+            }
+        }
+    }
+}
+pub proof fn lemma_consistent_prefix(states: Seq<St>, notes: Seq<Note>, j: int)
+    requires chain(states, notes), consistent(states[0]), 0 <= j <= notes.len(),
+    ensures consistent(states[j]),
+    decreases j
+{
+    if j > 0 {
+        lemma_consistent_prefix(states, notes, j - 1);
+        assert(turn(states, notes, j - 1));
+        lemma_turn_keeps_consistent(states[j - 1], states[j], notes[j - 1]);
+    }
+}
+
+/// "never the editor's text": when the last notification about a document WITH A FILE PATH is a didClose, the analysis ends with the disk text of
+/// its file or without any text for it — whatever didOpen / didChange texts came before (started from a consistent state)
+pub proof fn lemma_closed_document_drops_editor_text(states: Seq<St>, notes: Seq<Note>, u: Uri, j: int, p: PathBuf)
+    requires chain(states, notes), consistent(states[0]), 0 <= j < notes.len(), notes[j] == Note::Close(u), no_later_note_about(notes, u, j),
+        sp_path(u) == Some(p),
+    ensures
+        last_for(states.last().applied, u) == Some(sp_disk_text(p)) || !(last_for(states.last().applied, u) matches Some(Some(_))) /*@C27.sequence.closed-document-drops-editor-text*/,
+{
+    lemma_last_notification_wins(states, notes, u, j);
+    lemma_consistent_prefix(states, notes, j);
+    if close_effect(states[j], u) is None {
+        // not removed, and the only None branch left for a document with a path: the analysis does not know it, so (consistent) it holds no text
+        assert(!states[j].known.contains(u));
+        assert(!(last_for(states[j].applied, u) matches Some(Some(_))));
+    }
 }
